@@ -9,15 +9,19 @@ import RichModel.Lemmas.WrapTabs
 import RichModel.Lemmas.WrapWhole
 import RichModel.Lemmas.WrapRstrip
 import RichModel.Lemmas.WrapFullKept
+import RichModel.Lemmas.TotalityWrap
+import RichModel.Lemmas.WrapRealStyle
 import RichModel.Props.C13
 /-!
 # C02 — word wrapping keeps every character, in order, with its own style
 
 Property theorems only (helper lemmas: `Lemmas/Wrap*.lean`).  Model: `Model/Wrap.lean` (`_wrap.py`, `Text.wrap`,
-`Lines.justify`) on top of `Model/Text.lean` (C05) and `Model/Cells.lean` (C13).  All statements quantify over an
-arbitrary cell-width function `cw` with only the hypotheses they use (`cw ' ' = 1`, `cw '…' = 1`, `∀ c, cw c ≤ 2`,
-`2 ≤ w`) — instantiated at the table generated from `rich/_cell_widths.py` at the end — and over an arbitrary type
-`σ` of opaque style names.  No theorem bounds the length of the text, the number of spans or the width.
+`Lines.justify`) on top of `Model/Text.lean` (C05) and `Model/Cells.lean` (C13).  All statements quantify over an arbitrary cell-width function `cw` with only the hypotheses they use
+(`cw ' ' = 1`, `cw '…' = 1`, `∀ c, cw c ≤ 2`, and `∀ c, cw c ≤ w` "every character fits a line" or just `1 ≤ w` — see
+"the boundary of the property" near the end: the stated range, widths ≥ 2 with characters of at most 2 cells, is one
+instance, `statement_range`) — instantiated at the table generated from `rich/_cell_widths.py` at the end — and over an
+arbitrary type `σ` of opaque style names (`wrap_fold_keeps_real_styles` interprets them in rich's real `Style`
+algebra).  No theorem bounds the length of the text, the number of spans or the width.
 
 Reference semantics (C05): `Text.view t : List (Char × List σ)` — every character with the list of style names that
 apply to it, base style first, then the covering spans in span order ("later spans win" is the order of that
@@ -59,25 +63,25 @@ variable {chars : Bool}
 
 /-- The break offsets computed on the plain string are strictly increasing and strictly inside the string, for every
 string, every width into which every character fits, folding or not. -/
-theorem divideLine_offsets (cw : Char → Nat) (text : List Char) (w : Nat) (fold : Bool) (h2 : ∀ c, cw c ≤ 2) (hw : 2 ≤ w) :
+theorem divideLine_offsets (cw : Char → Nat) (text : List Char) (w : Nat) (fold : Bool) (hwc : ∀ c, cw c ≤ w) :
     (divideLine cw text w fold).Pairwise (· < ·) ∧ ∀ o ∈ divideLine cw text w fold, 0 < o ∧ o < text.length :=
-  Wrap.divideLine_offsets cw text w fold (fun c => Nat.le_trans (h2 c) hw)
+  Wrap.divideLine_offsets cw text w fold hwc
 
 /-- With folding, every piece between two consecutive offsets fits the width once its trailing whitespace is
 removed — the reason why wrapping never has to cut a non-whitespace character. -/
-theorem divideLine_pieces_fit (cw : Char → Nat) (text : List Char) (w : Nat) (h2 : ∀ c, cw c ≤ 2) (hw : 2 ≤ w) :
+theorem divideLine_pieces_fit (cw : Char → Nat) (text : List Char) (w : Nat) (hwc : ∀ c, cw c ≤ w) :
     ∀ p ∈ pieces (divideLine cw text w true) text, cellLen cw (pyRstrip p) ≤ w :=
-  Wrap.divideLine_pieces_fit cw text w (fun c => Nat.le_trans (h2 c) hw)
+  Wrap.divideLine_pieces_fit cw text w hwc
 
 /-- **A word is broken only when it is too wide.**  An offset between two non-whitespace characters lies strictly
 inside a match `word` of `\s*\S+\s*`, folding is on, and that word without its trailing whitespace — i.e. the run of
 non-whitespace together with the indentation before it when it starts the paragraph — is wider than the width. -/
-theorem break_only_when_too_wide (cw : Char → Nat) (text : List Char) (w : Nat) (fold : Bool) (h2 : ∀ c, cw c ≤ 2)
-    (hw : 2 ≤ w) (o : Nat) (ho : o ∈ divideLine cw text w fold)
+theorem break_only_when_too_wide (cw : Char → Nat) (text : List Char) (w : Nat) (fold : Bool)
+    (hwc : ∀ c, cw c ≤ w) (o : Nat) (ho : o ∈ divideLine cw text w fold)
     (hl : ∃ c, text[o - 1]? = some c ∧ pyIsSpace c = false) (hr : ∃ c, text[o]? = some c ∧ pyIsSpace c = false) :
     fold = true ∧ ∃ a b word, (a, b, word) ∈ words text ∧ a < o ∧ o < b ∧ word = (text.drop a).take (b - a) ∧
       w < cellLen cw (pyRstrip word) :=
-  Wrap.break_only_when_too_wide cw text w fold (fun c => Nat.le_trans (h2 c) hw) o ho hl hr
+  Wrap.break_only_when_too_wide cw text w fold hwc o ho hl hr
 
 /-- what a match of `\s*\S+\s*` is: indentation (only at the very beginning), one run of non-whitespace, trailing
 whitespace; a later match is preceded by whitespace -/
@@ -93,7 +97,7 @@ theorem words_shape (text : List Char) (a b : Nat) (word : List Char) (h : (a, b
 /-- **Every line `Text.wrap` produces fits the width**, unless the effective overflow is "ignore" — for every text,
 span set, justify mode (including "full"), tab size, `no_wrap`, and for the released as well as the repaired code. -/
 theorem wrap_lines_fit [BEq σ] (wv : WVariant) (cw : Char → Nat) (hsp : cw ' ' = 1) (h2 : ∀ c, cw c ≤ 2) (hel : cw '…' = 1)
-    (A : StyleAlg σ) (t : Text σ) (w : Nat) (hw : 2 ≤ w) (justify : Option Justify) (overflow : Option Overflow)
+    (A : StyleAlg σ) (t : Text σ) (w : Nat) (hw : 1 ≤ w) (justify : Option Justify) (overflow : Option Overflow)
     (tabSize : Option Nat) (noWrap : Option Bool) (out : List (Text σ))
     (h : wrap wv cw A t w justify overflow tabSize noWrap = .ok out)
     (hov : wrapOverflowOf t overflow ≠ Overflow.ignore) : ∀ l ∈ out, cellLen cw l.plain ≤ w := by
@@ -101,7 +105,7 @@ theorem wrap_lines_fit [BEq σ] (wv : WVariant) (cw : Char → Nat) (hsp : cw ' 
   obtain ⟨ps, _, h⟩ := bind_ok.mp h
   intro l hl
   obtain ⟨l0, rfl⟩ := wrapParagraphs_all_truncated wv cw A w _ _ _ _ ps out h l hl
-  exact truncate_fits cw hsp h2 hel l0 w (by omega) _ hov false
+  exact truncate_fits cw hsp h2 hel l0 w hw _ hov false
 
 /-! ## the heart: `divide` cuts the styled string -/
 
@@ -136,10 +140,9 @@ example :
 "right": the non-whitespace characters of the produced lines, concatenated, **with their effective styles**, are
 exactly those of the paragraph — nothing dropped, duplicated, reordered or restyled. -/
 theorem wrapLine_fold_keeps [BEq σ] (cw : Char → Nat) (hsp : cw ' ' = 1) (h2 : ∀ c, cw c ≤ 2) (A : StyleAlg σ) (w : Nat)
-    (hw : 2 ≤ w) (j : Justify) (hj : j ≠ Justify.full) (P : Text σ) (hP : Inv P) :
+    (hwc : ∀ c, cw c ≤ w) (j : Justify) (hj : j ≠ Justify.full) (P : Text σ) (hP : Inv P) :
     ∃ out, wrapLine (WVariant.fixed chars) cw A P w j Overflow.fold false = .ok out ∧
       nsv (out.flatMap Text.view) = nsv P.view ∧ ∀ l ∈ out, Inv l := by
-  have hwc : ∀ c, cw c ≤ w := fun c => Nat.le_trans (h2 c) hw
   obtain ⟨hpw, hin⟩ := Wrap.divideLine_offsets cw P.plain w true hwc
   have hasc : AscFrom 0 (divideLine cw P.plain w true) :=
     ascFrom_of_pairwise _ 0 (hpw.imp (fun h => Nat.le_of_lt h)) (fun o _ => Nat.zero_le o)
@@ -151,10 +154,10 @@ theorem wrapLine_fold_keeps [BEq σ] (cw : Char → Nat) (hsp : cw ' ' = 1) (h2 
 
 /-- the characters alone -/
 theorem wrapLine_fold_keeps_chars [BEq σ] (cw : Char → Nat) (hsp : cw ' ' = 1) (h2 : ∀ c, cw c ≤ 2) (A : StyleAlg σ)
-    (w : Nat) (hw : 2 ≤ w) (j : Justify) (hj : j ≠ Justify.full) (P : Text σ) (hP : Inv P) :
+    (w : Nat) (hwc : ∀ c, cw c ≤ w) (j : Justify) (hj : j ≠ Justify.full) (P : Text σ) (hP : Inv P) :
     ∃ out, wrapLine (WVariant.fixed chars) cw A P w j Overflow.fold false = .ok out ∧
       (out.flatMap (·.plain)).filter (fun c => !pyIsSpace c) = P.plain.filter (fun c => !pyIsSpace c) := by
-  obtain ⟨out, h1, h3, _⟩ := wrapLine_fold_keeps cw hsp h2 A w hw j hj P hP
+  obtain ⟨out, h1, h3, _⟩ := wrapLine_fold_keeps cw hsp h2 A w hwc j hj P hP
   refine ⟨out, h1, ?_⟩
   have key : ∀ (v : List (Char × List σ)), (nsv v).map (·.1) = (v.map (·.1)).filter (fun c => !pyIsSpace c) := by
     intro v; simp only [nsv, List.filter_map]; rfl
@@ -170,11 +173,10 @@ theorem wrapLine_fold_keeps_chars [BEq σ] (cw : Char → Nat) (hsp : cw ' ' = 1
 /-- The same for justify **"full"**: every line but the last of the paragraph is rebuilt from its words with the
 blanks spread out; the non-whitespace characters of the produced lines and their effective styles are those of the
 paragraph (up to the null style `""` that `Text("").join` puts in front). -/
-theorem wrapLine_fold_keeps_full [BEq σ] [LawfulBEq σ] (cw : Char → Nat) (hsp : cw ' ' = 1) (h2 : ∀ c, cw c ≤ 2)
-    (A : StyleAlg σ) (w : Nat) (hw : 2 ≤ w) (P : Text σ) (hP : Inv P) :
+theorem wrapLine_fold_keeps_full [BEq σ] [LawfulBEq σ] (cw : Char → Nat) (hsp : cw ' ' = 1)
+    (A : StyleAlg σ) (w : Nat) (hwc : ∀ c, cw c ≤ w) (P : Text σ) (hP : Inv P) :
     ∃ out, wrapLine (WVariant.fixed chars) cw A P w Justify.full Overflow.fold false = .ok out ∧
       dropNull A (nsv (out.flatMap Text.view)) = dropNull A (nsv P.view) ∧ ∀ l ∈ out, Inv l := by
-  have hwc : ∀ c, cw c ≤ w := fun c => Nat.le_trans (h2 c) hw
   obtain ⟨hpw, hin⟩ := Wrap.divideLine_offsets cw P.plain w true hwc
   have hasc : AscFrom 0 (divideLine cw P.plain w true) :=
     ascFrom_of_pairwise _ 0 (hpw.imp (fun h => Nat.le_of_lt h)) (fun o _ => Nat.zero_le o)
@@ -187,15 +189,15 @@ theorem wrapLine_fold_keeps_full [BEq σ] [LawfulBEq σ] (cw : Char → Nat) (hs
 characters of the produced lines, concatenated, are exactly those of the paragraph — none dropped, duplicated or
 reordered — and each carries the effective style it had (compared modulo the null style, see the header). -/
 theorem wrapLine_fold_keeps_every_justify [BEq σ] [LawfulBEq σ] (cw : Char → Nat) (hsp : cw ' ' = 1) (h2 : ∀ c, cw c ≤ 2)
-    (A : StyleAlg σ) (w : Nat) (hw : 2 ≤ w) (j : Justify) (P : Text σ) (hP : Inv P) :
+    (A : StyleAlg σ) (w : Nat) (hwc : ∀ c, cw c ≤ w) (j : Justify) (P : Text σ) (hP : Inv P) :
     ∃ out, wrapLine (WVariant.fixed chars) cw A P w j Overflow.fold false = .ok out ∧
       dropNull A (nsv (out.flatMap Text.view)) = dropNull A (nsv P.view) ∧ (∀ l ∈ out, Inv l) ∧
       (out.flatMap (·.plain)).filter (fun c => !pyIsSpace c) = P.plain.filter (fun c => !pyIsSpace c) := by
   have hmain : ∃ out, wrapLine (WVariant.fixed chars) cw A P w j Overflow.fold false = .ok out ∧
       dropNull A (nsv (out.flatMap Text.view)) = dropNull A (nsv P.view) ∧ (∀ l ∈ out, Inv l) := by
     by_cases hj : j = Justify.full
-    · subst hj; exact wrapLine_fold_keeps_full cw hsp h2 A w hw P hP
-    · obtain ⟨out, h1, h3, h4⟩ := wrapLine_fold_keeps cw hsp h2 A w hw j hj P hP
+    · subst hj; exact wrapLine_fold_keeps_full cw hsp A w hwc P hP
+    · obtain ⟨out, h1, h3, h4⟩ := wrapLine_fold_keeps cw hsp h2 A w hwc j hj P hP
       exact ⟨out, h1, by rw [h3], h4⟩
   obtain ⟨out, h1, h3, h4⟩ := hmain
   refine ⟨out, h1, h3, h4, ?_⟩
@@ -220,7 +222,7 @@ rich's style algebra that `wrap` itself relies on when `expand_tabs` re-applies 
 puts the null style in front; for texts without tabs and justify other than "full" the comparison is exact
 (`wrap_fold_keeps_styles_exact`). -/
 theorem wrap_fold_keeps_nonspace [BEq σ] [LawfulBEq σ] (cw : Char → Nat) (hsp : cw ' ' = 1) (h2 : ∀ c, cw c ≤ 2)
-    (A : StyleAlg σ) (t : Text σ) (ht : Inv t) (w : Nat) (hw : 2 ≤ w) (justify : Option Justify)
+    (A : StyleAlg σ) (t : Text σ) (ht : Inv t) (w : Nat) (hwc : ∀ c, cw c ≤ w) (justify : Option Justify)
     (overflow : Option Overflow) (ts : Nat) (hts : 0 < ts) (noWrap : Option Bool)
     (hov : wrapOverflowOf t overflow = Overflow.fold) (hnw : noWrapOf t overflow noWrap = false) :
     ∃ out, wrap (WVariant.fixed chars) cw A t w justify overflow (some ts) noWrap = .ok out ∧
@@ -233,11 +235,11 @@ theorem wrap_fold_keeps_nonspace [BEq σ] [LawfulBEq σ] (cw : Char → Nat) (hs
     rw [hov, hnw]
     obtain ⟨Q, hQ, hQi, _, hno, hyes⟩ := expandTabs_ink' P hP ts hts
     by_cases hc : P.plain.contains '\t' = true
-    · obtain ⟨out, h1, h3, _⟩ := wrapLine_fold_keeps_every_justify cw hsp h2 A w hw (wrapJustifyOf t justify) Q hQi
+    · obtain ⟨out, h1, h3, _⟩ := wrapLine_fold_keeps_every_justify cw hsp h2 A w hwc (wrapJustifyOf t justify) Q hQi
       refine ⟨Q, out, by rw [if_pos hc]; exact hQ, h1, ?_⟩
       rw [normView_of_dropNull A _ _ h3, hyes hc]
       exact normView_cons_base A P.style _ (nsv_styles_start_with_base P)
-    · obtain ⟨out, h1, h3, _⟩ := wrapLine_fold_keeps_every_justify cw hsp h2 A w hw (wrapJustifyOf t justify) P hP
+    · obtain ⟨out, h1, h3, _⟩ := wrapLine_fold_keeps_every_justify cw hsp h2 A w hwc (wrapJustifyOf t justify) P hP
       exact ⟨P, out, by rw [if_neg hc], h1, normView_of_dropNull A _ _ h3⟩
   obtain ⟨out, h1, h3⟩ := hmain
   refine ⟨out, h1, h3, ?_⟩
@@ -254,7 +256,7 @@ theorem wrap_fold_keeps_nonspace [BEq σ] [LawfulBEq σ] (cw : Char → Nat) (hs
 
 /-- for a text without tab characters the null style is the only thing to erase, in every justify mode -/
 theorem wrap_fold_keeps_nonspace_notabs [BEq σ] [LawfulBEq σ] (cw : Char → Nat) (hsp : cw ' ' = 1) (h2 : ∀ c, cw c ≤ 2)
-    (A : StyleAlg σ) (t : Text σ) (ht : Inv t) (w : Nat) (hw : 2 ≤ w) (justify : Option Justify)
+    (A : StyleAlg σ) (t : Text σ) (ht : Inv t) (w : Nat) (hwc : ∀ c, cw c ≤ w) (justify : Option Justify)
     (overflow : Option Overflow) (tabSize : Option Nat) (noWrap : Option Bool)
     (hov : wrapOverflowOf t overflow = Overflow.fold) (hnw : noWrapOf t overflow noWrap = false)
     (htab : '\t' ∉ t.plain) :
@@ -263,12 +265,12 @@ theorem wrap_fold_keeps_nonspace_notabs [BEq σ] [LawfulBEq σ] (cw : Char → N
   apply wrap_over_paragraphs cw A t ht w justify overflow tabSize noWrap (dropNull A) (dropNull_append A)
   intro P hP hPc
   rw [hov, hnw]
-  obtain ⟨out, h1, h3, _⟩ := wrapLine_fold_keeps_every_justify cw hsp h2 A w hw (wrapJustifyOf t justify) P hP
+  obtain ⟨out, h1, h3, _⟩ := wrapLine_fold_keeps_every_justify cw hsp h2 A w hwc (wrapJustifyOf t justify) P hP
   exact ⟨P, out, no_tab_paragraph t P tabSize htab hPc, h1, h3⟩
 
 /-- … and for the four justify modes that treat lines separately the styles are compared **exactly** -/
 theorem wrap_fold_keeps_styles_exact [BEq σ] (cw : Char → Nat) (hsp : cw ' ' = 1) (h2 : ∀ c, cw c ≤ 2)
-    (A : StyleAlg σ) (t : Text σ) (ht : Inv t) (w : Nat) (hw : 2 ≤ w) (justify : Option Justify)
+    (A : StyleAlg σ) (t : Text σ) (ht : Inv t) (w : Nat) (hwc : ∀ c, cw c ≤ w) (justify : Option Justify)
     (overflow : Option Overflow) (tabSize : Option Nat) (noWrap : Option Bool)
     (hov : wrapOverflowOf t overflow = Overflow.fold) (hnw : noWrapOf t overflow noWrap = false)
     (hj : wrapJustifyOf t justify ≠ Justify.full) (htab : '\t' ∉ t.plain) :
@@ -277,7 +279,7 @@ theorem wrap_fold_keeps_styles_exact [BEq σ] (cw : Char → Nat) (hsp : cw ' ' 
   apply wrap_over_paragraphs cw A t ht w justify overflow tabSize noWrap id (fun _ _ => rfl)
   intro P hP hPc
   rw [hov, hnw]
-  obtain ⟨out, h1, h3, _⟩ := wrapLine_fold_keeps cw hsp h2 A w hw _ hj P hP
+  obtain ⟨out, h1, h3, _⟩ := wrapLine_fold_keeps cw hsp h2 A w hwc _ hj P hP
   exact ⟨P, out, no_tab_paragraph t P tabSize htab hPc, h1, h3⟩
 
 /-! ## every overflow mode: each character that is output carries the style it had -/
@@ -288,18 +290,17 @@ justify "default", "left", "center" or "right": the paragraph's styled string is
 style it had before wrapping* — then blanks / the ellipsis character.  No character of the output comes from anywhere
 else, none changes its style, and their order is the paragraph's. -/
 theorem wrapLine_style_preserved [BEq σ] (cw : Char → Nat) (hsp : cw ' ' = 1) (h2 : ∀ c, cw c ≤ 2) (A : StyleAlg σ) (w : Nat)
-    (hw : 2 ≤ w) (j : Justify) (hj : j ≠ Justify.full) (o : Overflow) (nw : Bool) (P : Text σ) (hP : Inv P) :
+    (hw : 1 ≤ w) (j : Justify) (hj : j ≠ Justify.full) (o : Overflow) (nw : Bool) (P : Text σ) (hP : Inv P) :
     ∃ lines : List (Text σ), (lines.map Text.view).flatten = P.view ∧
       wrapLine (WVariant.fixed chars) cw A P w j o nw = .ok (lines.map (finishLine (WVariant.fixed chars) cw w j o)) ∧
       ∀ l ∈ lines, Kept l (finishLine (WVariant.fixed chars) cw w j o l) := by
-  have hwc : ∀ c, cw c ≤ w := fun c => Nat.le_trans (h2 c) hw
   have finish : ∀ lines : List (Text σ), (∀ l ∈ lines, Inv l) →
       (justifyLines (WVariant.fixed chars) cw A (lines.map (fun l => Text.rstripEndW chars cw (WVariant.fixed chars).text l w)) w j o >>= fun justified =>
         (.ok (justified.map (fun l => l.truncate cw w (some o))) : Except PyErr (List (Text σ))))
         = .ok (lines.map (finishLine (WVariant.fixed chars) cw w j o)) ∧
       ∀ l ∈ lines, Kept l (finishLine (WVariant.fixed chars) cw w j o l) := by
     intro lines hinv
-    refine ⟨?_, fun l hl => finishLine_kept cw hsp h2 w (by omega) j o l (hinv l hl)⟩
+    refine ⟨?_, fun l hl => finishLine_kept cw hsp h2 w hw j o l (hinv l hl)⟩
     rw [justifyLines_map _ _ _ _ _ _ _ hj]
     simp only [bind, Except.bind, List.map_map]
     rfl
@@ -311,11 +312,8 @@ theorem wrapLine_style_preserved [BEq σ] (cw : Char → Nat) (hsp : cw ' ' = 1)
     simp only [if_true, bind, Except.bind] at f1 ⊢
     exact f1
   | false =>
-    obtain ⟨hpw, hin⟩ := Wrap.divideLine_offsets cw P.plain w (o == Overflow.fold) hwc
-    have hasc : AscFrom 0 (divideLine cw P.plain w (o == Overflow.fold)) :=
-      ascFrom_of_pairwise _ 0 (hpw.imp (fun h => Nat.le_of_lt h)) (fun o _ => Nat.zero_le o)
-    obtain ⟨lines, hdiv, hview, _, hall⟩ :=
-      Text.divide_view P _ hP hasc (fun o ho => Nat.le_of_lt (hin o ho).2)
+    obtain ⟨hasc, hin⟩ := divideLine_weak cw P.plain w (o == Overflow.fold)
+    obtain ⟨lines, hdiv, hview, _, hall⟩ := Text.divide_view P _ hP hasc hin
     obtain ⟨f1, f2⟩ := finish lines (fun l hl => (hall l hl).1)
     refine ⟨lines, by rw [hview, pieces_flatten _ _ hasc], ?_, f2⟩
     unfold wrapLine
@@ -330,11 +328,10 @@ are a prefix of those of its piece — in order, each with the effective style i
 `Text("").join` puts in front of a rebuilt line) — possibly between ellipsis characters.  (The blanks between the words
 of a rebuilt line are new characters; nothing is claimed about them.) -/
 theorem wrapLine_style_preserved_full [BEq σ] [LawfulBEq σ] (cw : Char → Nat) (hsp : cw ' ' = 1) (h2 : ∀ c, cw c ≤ 2)
-    (A : StyleAlg σ) (w : Nat) (hw : 2 ≤ w) (o : Overflow) (nw : Bool) (P : Text σ) (hP : Inv P) :
+    (A : StyleAlg σ) (w : Nat) (hw : 1 ≤ w) (o : Overflow) (nw : Bool) (P : Text σ) (hP : Inv P) :
     ∃ (lines out : List (Text σ)), (lines.map Text.view).flatten = P.view ∧
       wrapLine (WVariant.fixed chars) cw A P w Justify.full o nw = .ok out ∧ out.length = lines.length ∧
       ∀ p ∈ lines.zip out, InkPrefix A p.1 p.2 := by
-  have hwc : ∀ c, cw c ≤ w := fun c => Nat.le_trans (h2 c) hw
   have finish : ∀ lines : List (Text σ), (∀ l ∈ lines, Inv l) → ∃ out,
       (justifyLines (WVariant.fixed chars) cw A
           (lines.map (fun l => Text.rstripEndW (WVariant.fixed chars).rstripChars cw (WVariant.fixed chars).text l w)) w
@@ -346,7 +343,7 @@ theorem wrapLine_style_preserved_full [BEq σ] [LawfulBEq σ] (cw : Char → Nat
       (lines.map (fun l => Text.rstripEndW chars cw Variant.repaired l (w : Int)))
       (by intro s hs; obtain ⟨l, hl, rfl⟩ := List.mem_map.mp hs
           exact (rstripEnd_kept (chars := chars) cw l (hinv l hl) w).inv)
-    obtain ⟨f1, f2⟩ := fullRel_inkPrefix (chars := chars) cw hsp h2 A w (by omega) o lines outs hinv hrel
+    obtain ⟨f1, f2⟩ := fullRel_inkPrefix (chars := chars) cw hsp h2 A w hw o lines outs hinv hrel
     refine ⟨_, ?_, f1, f2⟩
     simp only [justifyLines, show (WVariant.fixed chars).text = Variant.repaired from rfl,
       show (WVariant.fixed chars).rstripChars = chars from rfl, hjf, bind, Except.bind]
@@ -358,11 +355,8 @@ theorem wrapLine_style_preserved_full [BEq σ] [LawfulBEq σ] (cw : Char → Nat
     simp only [if_true, bind, Except.bind] at f1 ⊢
     exact f1
   | false =>
-    obtain ⟨hpw, hin⟩ := Wrap.divideLine_offsets cw P.plain w (o == Overflow.fold) hwc
-    have hasc : AscFrom 0 (divideLine cw P.plain w (o == Overflow.fold)) :=
-      ascFrom_of_pairwise _ 0 (hpw.imp (fun h => Nat.le_of_lt h)) (fun o _ => Nat.zero_le o)
-    obtain ⟨lines, hdiv, hview, _, hall⟩ :=
-      Text.divide_view P _ hP hasc (fun o ho => Nat.le_of_lt (hin o ho).2)
+    obtain ⟨hasc, hin⟩ := divideLine_weak cw P.plain w (o == Overflow.fold)
+    obtain ⟨lines, hdiv, hview, _, hall⟩ := Text.divide_view P _ hP hasc hin
     obtain ⟨out, f1, f2, f3⟩ := finish lines (fun l hl => (hall l hl).1)
     refine ⟨lines, out, by rw [hview, pieces_flatten _ _ hasc], ?_, f2, f3⟩
     unfold wrapLine
@@ -392,11 +386,10 @@ def exCw (c : Char) : Nat := if c = 'あ' then 2 else if c = '̀' then 0 else 1
 /-- With the repaired `rstrip_end` (`chars = false`) every line of a fold-wrapped paragraph already fits the width
 when it leaves `rstrip_end` — the final `truncate` has nothing to cut and, in particular, "ellipsis"/"crop" never
 touch a line whose text fits — provided no whitespace character is zero cells wide. -/
-theorem fold_lines_fit_before_crop [BEq σ] (cw : Char → Nat) (h2 : ∀ c, cw c ≤ 2)
-    (hws : ∀ c, pyIsSpace c = true → 1 ≤ cw c) (w : Nat) (hw : 2 ≤ w) (P : Text σ) (hP : Inv P) :
+theorem fold_lines_fit_before_crop [BEq σ] (cw : Char → Nat)
+    (hws : ∀ c, pyIsSpace c = true → 1 ≤ cw c) (w : Nat) (hwc : ∀ c, cw c ≤ w) (P : Text σ) (hP : Inv P) :
     ∃ lines, P.divide Variant.repaired (divideLine cw P.plain w true) = .ok lines ∧
       ∀ l ∈ lines, cellLen cw (Text.rstripEndW false cw Variant.repaired l (w : Int)).plain ≤ w := by
-  have hwc : ∀ c, cw c ≤ w := fun c => Nat.le_trans (h2 c) hw
   obtain ⟨hpw, hin⟩ := Wrap.divideLine_offsets cw P.plain w true hwc
   have hasc : AscFrom 0 (divideLine cw P.plain w true) :=
     ascFrom_of_pairwise _ 0 (hpw.imp (fun h => Nat.le_of_lt h)) (fun o _ => Nat.zero_le o)
@@ -425,6 +418,104 @@ theorem old_wrap_ellipsis_drops_fitting_char :
         (Text.new Variant.repaired ['あ', 'あ', ' ', 'b'] 0) 4 none (some .ellipsis)).map (fun ls => ls.map (·.plain))
       = .ok [['あ', 'あ'], ['b']] := by
   constructor <;> rfl
+
+/-! ## the normal form is sound for rich's real `Style` algebra -/
+
+/-- In every style algebra where `+` is associative, has a two-sided identity and is idempotent (up to an
+equivalence that `+` respects), a style list and its normal form (null style erased, adjacent repetitions merged)
+combine to equivalent styles.  No commutativity is used: the order of the remaining styles — "later styles win" — is
+kept. -/
+theorem normal_form_sound [BEq σ] [LawfulBEq σ] {S : Type} (M : StyleLaws S) (A : StyleAlg σ) (interp : σ → S)
+    (hnull : M.eqv (interp A.null) M.one) (l : List σ) :
+    M.eqv (M.combine interp (normStyle A l)) (M.combine interp l) :=
+  M.normStyle_sound A interp hnull l
+
+/-- rich's real styles (C06 model: every constructible `Style`, `Style.__add__`, `Style.__eq__`; empty link stored
+as `None`, C06's repair) form such an algebra: `(a+b)+c = a+(b+c)`, `a + NULL_STYLE = a`, `NULL_STYLE + a == a`,
+and **`a + a == a`** — also for styles with links (`__eq__` compares `_link`, not the random `_link_id`). -/
+theorem real_styles_idempotent (v : StyleVariant) (hv : v.emptyLink = false) (a : Style) (ha : Style.Reachable v a) :
+    Style.eq (Style.add v a a) a = true ∧ Style.eq (Style.add v Style.null a) a = true ∧
+      Style.add v a Style.null = a :=
+  ⟨add_self_eq v hv ha, null_add_eq v hv ha, Style.add_null_right v a⟩
+
+/-- **The headline theorem at rich's real `Style` algebra.**  Interpret every style name of the text as a
+constructible `Style` (the name `""` as a style equal to `NULL_STYLE`); then for the whole of `Text.wrap` (as in
+`wrap_fold_keeps_nonspace`: every justify mode, tabs, overflow "fold") the non-whitespace characters of the produced
+lines are those of the text, in order, and the `Style` each one is rendered with — `Style.combine` of its effective
+style list — has the same compared fields (colour, background, attributes, link: what `Style.__eq__` compares) as before
+wrapping. -/
+theorem wrap_fold_keeps_real_styles [BEq σ] [LawfulBEq σ] (cw : Char → Nat) (hsp : cw ' ' = 1) (h2 : ∀ c, cw c ≤ 2)
+    (A : StyleAlg σ) (t : Text σ) (ht : Inv t) (w : Nat) (hwc : ∀ c, cw c ≤ w) (justify : Option Justify)
+    (overflow : Option Overflow) (ts : Nat) (hts : 0 < ts) (noWrap : Option Bool)
+    (hov : wrapOverflowOf t overflow = Overflow.fold) (hnw : noWrapOf t overflow noWrap = false)
+    (v : StyleVariant) (hv : v.emptyLink = false) (interp : σ → RStyle v)
+    (hnull : Style.eq (interp A.null).1 Style.null = true) :
+    ∃ out, wrap (WVariant.fixed chars) cw A t w justify overflow (some ts) noWrap = .ok out ∧
+      (nsv (out.flatMap Text.view)).map (fun p => (p.1, realKey v hv interp p.2)) =
+        (nsv t.view).map (fun p => (p.1, realKey v hv interp p.2)) := by
+  obtain ⟨out, ho, h3, _⟩ := wrap_fold_keeps_nonspace (chars := chars) cw hsp h2 A t ht w hwc justify overflow ts hts
+    noWrap hov hnw
+  exact ⟨out, ho, normView_sound A _ (realKey_normStyle v hv A interp hnull) _ _ h3⟩
+
+/-! ## the boundary of the property: which widths, which characters
+
+The theorems above are stated under the hypotheses they really need:
+* the `divide_line` facts and everything that *keeps every character* (`divideLine_offsets`, `divideLine_pieces_fit`,
+  `break_only_when_too_wide`, `wrapLine_fold_keeps…`, `wrap_fold_keeps_nonspace…`, `fold_lines_fit_before_crop`) need
+  **every character to fit a line**: `∀ c, cw c ≤ w`;
+* `wrap_lines_fit`, `wrapLine_style_preserved` and `wrapLine_style_preserved_full` need only `1 ≤ w` (through
+  `divideLine_weak` of C14: ascending offsets at any width);
+* `divide_effStyle` and `wrap_history_pure` need nothing about widths.
+The property's stated range — widths ≥ 2, characters of at most 2 cells — is one instance (`statement_range`); width 1
+with single-cell characters is another (`width_one_single_cells`).  Below that boundary the statements are false, and
+the `narrow_…` theorems show it by evaluation. -/
+
+/-- the range the property is stated for (widths 2..200, characters of 0, 1 or 2 cells) meets the hypothesis -/
+theorem statement_range (cw : Char → Nat) (h2 : ∀ c, cw c ≤ 2) (w : Nat) (hw : 2 ≤ w) : ∀ c, cw c ≤ w :=
+  fun c => Nat.le_trans (h2 c) hw
+
+/-- **Width 1 with single-cell (and zero-cell) characters is inside the boundary**: the whole of `Text.wrap` with
+folding, every justify mode, keeps every non-whitespace character in order with its style (normal form as in
+`wrap_fold_keeps_nonspace`), every line fits one cell, and every offset `divide_line` computes is strictly
+increasing and strictly inside the paragraph. -/
+theorem width_one_single_cells [BEq σ] [LawfulBEq σ] (cw : Char → Nat) (hsp : cw ' ' = 1) (h1 : ∀ c, cw c ≤ 1)
+    (hel : cw '…' = 1) (A : StyleAlg σ) (t : Text σ) (ht : Inv t) (justify : Option Justify) (overflow : Option Overflow)
+    (ts : Nat) (hts : 0 < ts) (noWrap : Option Bool)
+    (hov : wrapOverflowOf t overflow = Overflow.fold) (hnw : noWrapOf t overflow noWrap = false) :
+    (∃ out, wrap (WVariant.fixed chars) cw A t 1 justify overflow (some ts) noWrap = .ok out ∧
+      normView A (nsv (out.flatMap Text.view)) = normView A (nsv t.view) ∧
+      (out.flatMap (·.plain)).filter (fun c => !pyIsSpace c) = t.plain.filter (fun c => !pyIsSpace c) ∧
+      ∀ l ∈ out, cellLen cw l.plain ≤ 1) ∧
+    ∀ (text : List Char) (fold : Bool), (divideLine cw text 1 fold).Pairwise (· < ·) ∧
+      ∀ o ∈ divideLine cw text 1 fold, 0 < o ∧ o < text.length := by
+  have h2 : ∀ c, cw c ≤ 2 := fun c => Nat.le_trans (h1 c) (by omega)
+  refine ⟨?_, fun text fold => divideLine_offsets cw text 1 fold h1⟩
+  obtain ⟨out, ho, h3, h4⟩ := wrap_fold_keeps_nonspace (chars := chars) cw hsp h2 A t ht 1 h1 justify overflow ts hts
+    noWrap hov hnw
+  exact ⟨out, ho, h3, h4, wrap_lines_fit _ cw hsp h2 hel A t 1 (Nat.le_refl 1) justify overflow (some ts) noWrap out ho
+    (by rw [hov]; decide)⟩
+
+/-- outside: a double-width character at width 1.  `divide_line` still cuts around it, but the piece does not fit
+(`divideLine_pieces_fit` fails), and the final crop replaces it by a blank: the character is **lost**
+(`wrap_fold_keeps_nonspace` fails) — while every line still fits and no style moves (`wrap_lines_fit`,
+`wrapLine_style_preserved` hold at every width ≥ 1). -/
+theorem narrow_wide_character_lost :
+    divideLine exCw ['a', 'あ', 'b'] 1 true = [1, 2] ∧
+    pieces (divideLine exCw ['a', 'あ', 'b'] 1 true) ['a', 'あ', 'b'] = [['a'], ['あ'], ['b']] ∧
+    cellLen exCw (pyRstrip ['あ']) = 2 ∧
+    (wrap WVariant.repaired exCw (⟨0, List.sum, (· == ·)⟩ : StyleAlg Nat) (Text.new Variant.repaired ['a', 'あ', 'b'] 0) 1).map
+        (fun ls => ls.map (·.plain)) = .ok [['a'], [' '], ['b']] := by
+  refine ⟨by decide, by decide, by decide, by rfl⟩
+
+/-- outside: when the paragraph *starts* with a character wider than the width, `chop_cells` yields an empty first
+chunk and the first offset is 0 — not inside `(0, len)` (`divideLine_offsets` fails; the weak form of C14 holds) -/
+theorem narrow_offset_zero : divideLine exCw ['あ', 'a'] 1 true = [0, 1] := by decide
+
+/-- outside: width 0.  With overflow "ellipsis" the line is the ellipsis alone, one cell wide: `wrap_lines_fit`
+fails below width 1. -/
+theorem narrow_width_zero_ellipsis :
+    (wrap WVariant.repaired exCw (⟨0, List.sum, (· == ·)⟩ : StyleAlg Nat) (Text.new Variant.repaired ['a', 'b'] 0) 0
+        none (some .ellipsis)).map (fun ls => ls.map (·.plain)) = .ok [['…']] := by rfl
 
 /-! ## `wrap` does not touch its receiver -/
 
